@@ -4,3 +4,7 @@ From HV Require Import Base.Prelude C20.SchemaModel Gen.SchemaTables.
 (** the tables agree row by row except on the recorded disagreements (C20-F1) of the groups not repaired yet *)
 Example tables_agree : tables_ok fixed_F1a fixed_F1b schema_tbl loader_tbl = true.
 Proof. vm_compute. reflexivity. Qed.
+
+(** ... and, the syntax of duration values (C20-F6) apart, without any wildcard or excused row *)
+Example tables_strict : strict_ok (erase_classes schema_tbl) (erase_classes loader_tbl) = true.
+Proof. vm_compute. reflexivity. Qed.
